@@ -219,7 +219,7 @@ var Tier2OutboundsSmall = []string{"g1", "must_g2", "must_rules"}
 const Tier2Fallback = "block"
 
 // conjunction k in [0,26): digit d of (k+1) in base 3 for atom A,B,C: 0 absent, 1 positive, 2 negated.
-func tier2Rule(rot int, conj int, multi bool, out string) Rule {
+func tier2Rule(atoms [3]Atom, conj int, multi bool, out string) Rule {
 	k := conj + 1
 	var r Rule
 	for a := 0; a < 3; a++ {
@@ -228,7 +228,7 @@ func tier2Rule(rot int, conj int, multi bool, out string) Rule {
 		if d == 0 {
 			continue
 		}
-		at := Rotations[rot][a]
+		at := atoms[a]
 		ps := at.Single
 		if multi {
 			ps = at.Multi
@@ -247,6 +247,24 @@ func tier2Rule(rot int, conj int, multi bool, out string) Rule {
 //
 // outs is the outbound alphabet (Tier2Outbounds or Tier2OutboundsSmall). The fallback is Tier2Fallback.
 func Tier2(nRules int, perRuleRealisation bool, outs []string) *Space {
+	return Tier2Over(Rotations, nRules, perRuleRealisation, outs)
+}
+
+// RotationMacIP puts mac() into one program with sip() and dip(): MAC sets and CIDR sets share the builder's
+// LPM set table, so their order of first occurrence across rules matters.
+var RotationMacIP = [3]Atom{
+	{"mac", bare(MacA), bare(MacA, "02:42:ac:11:00:04")},
+	{"sip", bare("10.0.0.0/8"), bare("10.0.0.0/8", "192.168.0.0/16")},
+	{"dip", bare("203.0.113.0/24"), bare("203.0.113.0/24", "2001:db8:1::/64")},
+}
+
+// AllRotations = Rotations + RotationMacIP (Rotations itself is kept as it is for its existing users).
+func AllRotations() [][3]Atom {
+	return append(append([][3]Atom(nil), Rotations...), RotationMacIP)
+}
+
+// Tier2Over is Tier2 over an explicit list of rotations.
+func Tier2Over(rotations [][3]Atom, nRules int, perRuleRealisation bool, outs []string) *Space {
 	nOut := len(outs)
 	base := 26 * nOut
 	if perRuleRealisation {
@@ -260,8 +278,8 @@ func Tier2(nRules int, perRuleRealisation bool, outs []string) *Space {
 		per *= 2
 	}
 	label := fmt.Sprintf("t2/%drules", nRules)
-	return &Space{Name: label, n: per * len(Rotations),
-		Descr: fmt.Sprintf("%d rotations x programs of exactly %d rules over 26 conjunctions x %d outbounds, realisation per %s", len(Rotations), nRules, nOut, map[bool]string{true: "rule", false: "program"}[perRuleRealisation]),
+	return &Space{Name: label, n: per * len(rotations),
+		Descr: fmt.Sprintf("%d rotations x programs of exactly %d rules over 26 conjunctions x %d outbounds, realisation per %s", len(rotations), nRules, nOut, map[bool]string{true: "rule", false: "program"}[perRuleRealisation]),
 		at: func(i int) *Program {
 			rot := i / per
 			i %= per
@@ -280,9 +298,58 @@ func Tier2(nRules int, perRuleRealisation bool, outs []string) *Space {
 					multi = d%2 == 1
 					d /= 2
 				}
-				rules[k] = tier2Rule(rot, d/nOut, multi, outs[d%nOut])
+				rules[k] = tier2Rule(rotations[rot], d/nOut, multi, outs[d%nOut])
 			}
 			p.Rules = rules
+			return p
+		}}
+}
+
+// ---------------------------------------------------------------------------------------------------
+// Tier 3: optimizer-facing programs (for the legs that run the production optimizer chain).
+
+// Tier3Outbounds is the outbound alphabet of tier 3; the fallback is Tier2Fallback ("block").
+var Tier3Outbounds = []string{"g1", "g2", "direct", "must_g1", "g1(mark:0x7)"}
+
+// Tier3Values: per function three different single values (nValues of Tier3 selects the first 2 or all 3).
+var Tier3Values = []struct {
+	Func string
+	Vals []Param
+}{
+	{"domain", []Param{{"full", "a.example"}, {"full", "b.example"}, {"full", "c.example"}}},
+	{"dip", bare("10.0.0.1", "10.0.0.2", "10.0.0.3")},
+	{"dport", bare("80", "443", "8080")},
+}
+
+// Tier3 enumerates all programs of exactly nRules rules where every rule is ONE condition [!]f(v), f in
+// {domain(full:), dip, dport}, v one of the first nValues (2 or 3) values of f, x Tier3Outbounds:
+// (3*nValues*2*5)^nRules programs. Neighbouring rules therefore share or differ in function, value, negation,
+// outbound name, mark and must in every combination - the triggers of rule merging/sorting/de-duplication.
+func Tier3(nRules, nValues int) *Space {
+	var rules []Rule
+	for _, f := range Tier3Values {
+		for _, v := range f.Vals[:nValues] {
+			for _, not := range []bool{false, true} {
+				for _, out := range Tier3Outbounds {
+					rules = append(rules, Rule{Conds: []Cond{{Func: f.Func, Not: not, Params: []Param{v}}}, Out: out})
+				}
+			}
+		}
+	}
+	base := len(rules)
+	n := 1
+	for k := 0; k < nRules; k++ {
+		n *= base
+	}
+	label := fmt.Sprintf("t3/%drules", nRules)
+	return &Space{Name: label, n: n,
+		Descr: fmt.Sprintf("all programs of exactly %d single-condition rules [!]f(v), f in {domain(full:),dip,dport}, %d values each, x %d outbounds (%d rule forms)", nRules, nValues, len(Tier3Outbounds), base),
+		at: func(i int) *Program {
+			p := &Program{Tier: 3, Label: label, Fallback: Tier2Fallback, Rules: make([]Rule, nRules)}
+			for k := nRules - 1; k >= 0; k-- {
+				p.Rules[k] = rules[i%base]
+				i /= base
+			}
 			return p
 		}}
 }
